@@ -576,7 +576,7 @@ func Apply(kind string, a *Answer, attacker, other *Zone) (*dns.Msg, bool) {
 			return nil, false
 		}
 		qn := dns.CanonicalName(m.Question[0].Name)
-		if qn == a.Child || !dns.IsSubDomain(a.Child, qn) {
+		if !dns.IsSubDomain(a.Child, qn) || (qn == a.Child && m.Question[0].Qtype == dns.TypeDS) {
 			return nil, false
 		}
 		var rec dns.RR
@@ -597,7 +597,11 @@ func Apply(kind string, a *Answer, attacker, other *Zone) (*dns.Msg, bool) {
 		m.Ns = append(m.Ns, soa)
 		m.Ns = append(m.Ns, z.sigsFor([]dns.RR{soa})...)
 		m.Ns = append(m.Ns, withSig(z, rec)...)
-		if z.NSEC3 {
+		if qn == a.Child {
+			// the question is for the delegation point itself: "no such type here", from the
+			// parent's record that lists NS and DS only — the type lives in the child zone
+			m.Rcode = dns.RcodeSuccess
+		} else if z.NSEC3 {
 			// closest encloser = the delegation point itself (matching record above); add the
 			// records covering the next closer name and the wildcard, genuine ones of the chain
 			nc := qn
